@@ -275,8 +275,8 @@ pub fn exec(dev: &mut Device, x: &U2fSpec, log: &mut Log) -> Option<Finding> {
 pub fn plan(tier: &str) -> u64 {
     match tier {
         "thorough" => 60_000,
-        "selfcheck" => 200,
-        _ => 1_200,
+        "selfcheck" => 20_000,
+        _ => 4_000,
     }
 }
 
